@@ -10,7 +10,7 @@ MODEL = ["independent byte-per-entry GF(2) reference model (harness/ref.c) and r
          "judge and sharding in verif.py"]
 
 PROPS = {}
-HOOK_COMMITS = ["52a5a65", "53e2fd0"]
+HOOK_COMMITS = ["52a5a65", "53e2fd0", "08e4ceb"]
 NOT_APPLICABLE = []
 
 PROPS["C01"] = dict(
@@ -269,16 +269,24 @@ PROPS["C14"] = dict(
          "fresh matrix entirely zero incl. rowstride padding, storage and headers disjoint from every live object, id-derived canaries of all live matrices intact, "
          "windows alias their parent's canary, block cache holds no live/duplicate/NULL block, header pool count (hook) == shadow count, after freeing everything in "
          "random order and m4ri_fini() the interposer's live set is empty; ASan catches use-after-free/double free in the caches; "
-         "distinct = (build, history kind, length bucket); every history is non-trivial (reaches reuse / eviction / second header block / unlink / fallback, tagged)",
-    assumptions=["shadow model and canary stream in harness/mon_alloc.c", "allocator interposer sees every allocation request of the library"],
+         "bounded-exhaustive part: in a build with 2 block-cache slots and 3 header blocks (guarded hook) every sequence of 5 (quick) / 6 (thorough) operations from "
+         "{init 1x64, init 2x64, init 3x64, init above the caching threshold, free oldest, free newest, window of newest, cache cleanup} is run from each of four states "
+         "(0 live headers, 62, capacity-2, and three header blocks of which the first two hold one live header each) with the full state check after every operation; "
+         "distinct = (build, history kind, length bucket) resp. the operation sequence; every history is non-trivial (reaches reuse / eviction / second header block / unlink / fallback, tagged)",
+    assumptions=["shadow model and canary stream in harness/mon_alloc.c", "allocator interposer sees every allocation request of the library",
+                 "the bounded-exhaustive stage runs the library with the two capacity constants overridden to 2 slots / 3 header blocks; the code is otherwise the same, the random and scripted histories run with the shipped capacities"],
     stages=[
         S("small-asan", "alloc", [], (400, 0), (12000, 0)),
         S("small-nosse-ts-asan", "alloc", [], (200, 0), (6000, 0)),
         S("host-asan", "alloc", [], (72, 0), (1500, 0), timeout=600),
         S("small-gomp-asan", "alloc", [], (100, 0), (2000, 0), env={"OMP_NUM_THREADS": "2"}),
+        # bounded-exhaustive: ALL operation sequences of length 5 (quick) / 6 (thorough) over 8 operations from 4 prepared states, in the build
+        # whose cache capacities are overridden by the guarded hook (2 block slots: eviction after 3 frees; 3 header blocks: spill after 192 live headers)
+        S("tiny-caches-asan", "alloc", ["--arg", "exh:5"], (4 * 8 ** 5, 0), (0, 0)),
+        S("tiny-caches-asan", "alloc", ["--arg", "exh:6"], (0, 0), (4 * 8 ** 6, 0)),
     ],
-    require_tags={"quick": ["reuse", "eviction", "headers>64", "headers>1024", "unlink", "zero-area", "window", "below-threshold", "above-threshold"],
-                  "thorough": ["reuse", "eviction", "headers>64", "headers>1024", "unlink", "zero-area", "window", "below-threshold", "above-threshold"]},
+    require_tags={"quick": ["reuse", "eviction", "headers>64", "headers>1024", "unlink", "zero-area", "window", "below-threshold", "above-threshold", "header-spill", "bounded-exhaustive"],
+                  "thorough": ["reuse", "eviction", "headers>64", "headers>1024", "unlink", "zero-area", "window", "below-threshold", "above-threshold", "header-spill", "bounded-exhaustive"]},
 )
 
 PROPS["C20"] = dict(
